@@ -27,7 +27,7 @@ KNOWN_WITNESSES = {
                                                             ('pickle', 'P', 1, 0), ('unpickle', 'P', 1, 0)]),
 }
 META = {
-    'extractors': ['cache', 'pycache'],
+    'extractors': ['cache', 'pycache', 'pyget'],
     'technique': ('Lean 4 proof (state-machine invariants preserved by every step, lifted to every history by '
                   'induction over the op list) + extracted CacheFactory defaults + every CacheFactory method TRANSLATED from '
                   'cache.py into a deep embedding (PyCache) and proved equal to the model function by symbolic execution '
@@ -43,7 +43,17 @@ META = {
                    'expireAll) is not only hand-written: vlib/extractors/pycache.py translates the method bodies from the AST on every '
                    'run and C04_translated_<method>_eq_model proves, for all states (representation invariant Rep: the association lists '
                    'have distinct keys, strongly cached objects are alive; cullFraction != 0), that running the translated method '
-                   'yields the image of what the model function yields.'),
+                   'yields the image of what the model function yields. '
+                   'The CALLER layer is translated as well (vlib/extractors/pyget.py -> PyGet deep embedding, Model/GetX.lean): '
+                   'SQLObject.get / _init / _SO_finishCreate / expire / __getstate__ / __setstate__ / _SO_fetchAlternateID / '
+                   '_SO_foreignKey, the tail of destroySelf, Iteration.next and the CacheSet methods; a call of a CacheFactory method '
+                   'runs the translated PyCache program. C04_translated_sqlobject_get_exact / _eq_model (hit returns the cached object; '
+                   'miss on an existing row builds one instance under put/finishPut; miss on a missing row raises NotFound with caches '
+                   'and lock restored), C04_translated_finishCreate / destroy_tail / instance_expire / getstate / setstate / alternate / '
+                   'iteration / foreignKey _eq_model, C04_translated_cacheSet_* (class-name keyed dispatch, per-class factories) hold for '
+                   'all worlds under the stated hypotheses; the headline theorems are restated about the translated source '
+                   '(C04_translated_identity / _get_returns_live / _deleted_never_returned_partial / _unpickle_no_dup, and the '
+                   'C04_translated_setstate_deleted_row_full_FALSE witness).'),
     'level_note': ('Trusted: Lean kernel; the hand-written model of cache.py/main.py, tied to the code by the op-history '
                    'correspondence (sampling); CPython reference counting / weakref / pickle / SQLite are modelled, not verified.'),
     'rule': ('case = (doCache, cullFrequency, cullFraction, op history); guarded stream (no detaching expire, no unpickle of a deleted row; plus a stream with falsy row objects: '
@@ -52,7 +62,13 @@ META = {
              'str key; a class with idType=str), explicit-connection (classes bound to connection A, every access with connection=B), '
              'inheritance (oracle only: V/Car/Truck family + ForeignKey to the root, default and explicit connection); '
              'distinct = distinct (cfg, history); non-trivial = the history has at least one cache hit on a held object, cull or gc'),
-    'trusted': ['the reference semantics of the Python fragment cache.py is written in (lean/SqlObjVerif/Model/PyCache.lean: dicts as '
+    'trusted': ['the reference semantics of the Python fragment the callers are written in (lean/SqlObjVerif/Model/PyGet.lean), the AST '
+                'translator vlib/extractors/pyget.py, and the interface instantiation stated in the header of Model/GetX.lean: one '
+                'connection, injective class names, idType = identity on canonical ids, the database = the model table '
+                '(_SO_selectOne / queryInsertID / _SO_delete / _findAlternateID / cursor.fetchone), cls(_SO_fetch_no_create=1) allocates '
+                'the next handle, _SO_selectInit and the listed opaque statements (validator state, _SO_createValues, delattr loop, '
+                'signals, message building) change nothing the identity map sees',
+                'the reference semantics of the Python fragment cache.py is written in (lean/SqlObjVerif/Model/PyCache.lean: dicts as '
                 'insertion-ordered association lists, weakref liveness, lock as a held flag, try/except KeyError, try/finally, '
                 'for over snapshot lists / range) and the AST translator vlib/extractors/pycache.py',
                 'model of CPython reference counting: an object dies as soon as neither the application nor the strong cache '
